@@ -380,6 +380,8 @@ class WithOptions(Evaluatable[B]):
         """Whether the value under key is fully determined by the pre-set options."""
         if not dotted_key_exists(key, self.options):
             return False
+        if not dotted_key_exists(key, mixed):
+            return False
         if not dotted_key_exists(key, options):
             return True
         return self.force and get_dotted_key(key, mixed) == get_dotted_key(
